@@ -1,6 +1,6 @@
 //verif:pkg .
 //verif:use servers_mcp
-//verif:bound two requests with distinct symbolic header tokens (printable ASCII <= 6) from two clients / sessions; the second request is served completely while the first is suspended inside its tool handler; two HTTP context functions, one middleware, one tool-list filter; Streamable server (stateless and stateful) and legacy SSE server
+//verif:bound two requests with distinct symbolic header tokens (printable ASCII <= 6) from two clients / sessions; the second request is served completely while the first is suspended inside its tool handler; two HTTP context functions, one middleware, one tool-list filter; Streamable server (stateless and stateful) and legacy SSE server; list filters (tools, prompts, resources) that compact their input in place while another client's list or initialize request is served inside the filter call
 package mcp
 
 import (
@@ -225,3 +225,132 @@ func H_C13_legacy_sse() {
 	vAssert("middleware-own-tokens", vAnd(len(o.mwTok) == 2, vAnd(o.mwTok[0] == a, o.mwTok[1] == b)))
 	vReach("end")
 }
+
+// ---- list filters while another client's request is served ----
+
+func c13Names(rec *verifRecorder, key, field string) []string {
+	frame, _ := verifParse(rec.body)
+	m, _ := verifObj(frame)
+	res, _ := verifObj(m["result"])
+	arr, _ := res[key].([]interface{})
+	var names []string
+	for _, t := range arr {
+		tm, _ := verifObj(t)
+		n, _ := tm[field].(string)
+		names = append(names, n)
+	}
+	return names
+}
+
+// c13SameNames: the same names, each once (tools and prompts are listed in no particular order).
+func c13SameNames(a, b []string) bool {
+	if len(a) != len(b) {
+		return false
+	}
+	for _, x := range b {
+		n := 0
+		for _, y := range a {
+			if x == y {
+				n++
+			}
+		}
+		if n != 1 {
+			return false
+		}
+	}
+	return true
+}
+
+// H_C13_list_filter_overlap: a list filter hides the first-registered entry from everybody but the admin by
+// compacting the slice it was given in place; while the user's request is inside the filter (after the
+// compaction) the admin's list request - or an initialize - is served completely. Each caller must get the
+// list its own filter call produced. Tools, prompts and resources.
+func H_C13_list_filter_overlap() {
+	vRandConcrete(true)
+	kind := vChoice("registry", 3)  // 0 tools, 1 prompts, 2 resources
+	other := vChoice("otherRequest", 2) // what the second client sends: 0 the same list, 1 initialize
+	var srv *Server
+	var nested func()
+	depth := 0
+	hidden := func(ctx context.Context, name string) bool {
+		tok, _ := ctx.Value(c13K1{}).(string)
+		return name == "secret" && tok != "admin"
+	}
+	after := func() {
+		depth++
+		if depth == 1 && nested != nil {
+			nested()
+		}
+	}
+	toolFilter := func(ctx context.Context, in []*Tool) []*Tool {
+		out := in[:0]
+		for _, t := range in {
+			if !hidden(ctx, t.Name) {
+				out = append(out, t)
+			}
+		}
+		after()
+		return out
+	}
+	promptFilter := func(ctx context.Context, in []*Prompt) []*Prompt {
+		out := in[:0]
+		for _, t := range in {
+			if !hidden(ctx, t.Name) {
+				out = append(out, t)
+			}
+		}
+		after()
+		return out
+	}
+	resourceFilter := func(ctx context.Context, in []*Resource) []*Resource {
+		out := in[:0]
+		for _, t := range in {
+			if !hidden(ctx, t.Name) {
+				out = append(out, t)
+			}
+		}
+		after()
+		return out
+	}
+	ctxFunc := func(ctx context.Context, r *http.Request) context.Context {
+		return context.WithValue(ctx, c13K1{}, r.Header.Get("X-Tok"))
+	}
+	srv = NewServer("srv", "1.0", WithStatelessMode(true), WithPostSSEEnabled(false), WithHTTPContextFunc(ctxFunc),
+		WithToolListFilter(toolFilter), WithPromptListFilter(promptFilter), WithResourceListFilter(resourceFilter))
+	th := func(ctx context.Context, r *CallToolRequest) (*CallToolResult, error) { return NewTextResult("ok"), nil }
+	rh := func(ctx context.Context, r *ReadResourceRequest) (ResourceContents, error) {
+		return TextResourceContents{URI: r.Params.URI, Text: "t"}, nil
+	}
+	for _, n := range []string{"secret", "a", "b"} {
+		srv.RegisterTool(NewTool(n), th)
+		srv.RegisterPrompt(&Prompt{Name: n}, nil)
+		srv.RegisterResource(&Resource{URI: "res://" + n, Name: n}, rh)
+	}
+	method := []string{"tools/list", "prompts/list", "resources/list"}[kind]
+	key := []string{"tools", "prompts", "resources"}[kind]
+	listBody := []byte(`{"jsonrpc":"2.0","id":1,"method":"` + method + `"}`)
+	adminRec := newVerifRecorder()
+	nested = func() {
+		body := listBody
+		if other == 1 {
+			body = []byte(c13Init)
+		}
+		srv.httpHandler.ServeHTTP(adminRec, verifRequest("POST", "/mcp", body, "Accept", "application/json", "X-Tok", "admin"))
+	}
+	userRec := newVerifRecorder()
+	srv.httpHandler.ServeHTTP(userRec, verifRequest("POST", "/mcp", listBody, "Accept", "application/json", "X-Tok", "user"))
+	vAssert("user-list-is-what-its-filter-produced", c13SameNames(c13Names(userRec, key, "name"), []string{"a", "b"}))
+	if other == 0 {
+		vAssert("admin-list-is-complete", c13SameNames(c13Names(adminRec, key, "name"), []string{"secret", "a", "b"}))
+	} else {
+		vAssert("other-request-answered", adminRec.code() == 200)
+	}
+	// and a later sequential request still sees the whole registry
+	lateRec := newVerifRecorder()
+	nested = nil
+	srv.httpHandler.ServeHTTP(lateRec, verifRequest("POST", "/mcp", listBody, "Accept", "application/json", "X-Tok", "admin"))
+	vAssert("registry-unharmed-by-in-place-filter", c13SameNames(c13Names(lateRec, key, "name"), []string{"secret", "a", "b"}))
+	vReach("end")
+}
+
+const c13Init = `{"jsonrpc":"2.0","id":0,"method":"initialize","params":{"protocolVersion":"2025-03-26","clientInfo":{"name":"c","version":"1"},"capabilities":{}}}`
